@@ -1,5 +1,7 @@
 import Pamqp.Spec.Defs
 import Pamqp.Generated.Catalogue
+import Pamqp.Proofs.FloatLemmas
+import Pamqp.Proofs.Reencode
 /-!
 # C02, last clause — re-encoding the decoded header reproduces the original bytes
 -/
@@ -8,13 +10,13 @@ open Pamqp
 
 /-- single-precision floats survive widen-then-narrow: narrowing is idempotent on its own range -/
 theorem C02_float_idempotent (bits b : Nat) (h : f32Narrow bits = some b) : f32Narrow (f32Widen b) = some b := by
-  sorry
+  exact Proofs.FloatLemmas.f32Narrow_widen bits b h
 
 /-- encoding a normalised field value gives the bytes of the original: normalisation is invisible
 on the wire -/
 theorem C02_norm_invisible (legacy : Bool) (v : PyVal) (h : Spec.Encodable legacy v) :
     Encode.tableValue legacy (Spec.norm v) = Encode.tableValue legacy v := by
-  sorry
+  exact Proofs.Reencode.tableValue_norm legacy v h
 
 /-- constructor defaults of the regenerated property table are all "unset" -/
 theorem C02_defaults_unset :
@@ -27,6 +29,7 @@ theorem C02_reencode_generic (cat : Cat) (hdef : (cat.props.all (fun p => !Base.
     (size ch cls weight cls' weight' : PyVal) :
     Frame.marshal legacy cat (.header cls' weight' size (Spec.expectedProps (cat.props.zip vals))) ch =
     Frame.marshal legacy cat (.header cls weight size vals) ch := by
-  sorry
+  have _ := hlen
+  exact Proofs.Reencode.marshal_expected cat hdef legacy vals hok size ch cls weight cls' weight'
 
 end Pamqp.Props
